@@ -4,7 +4,9 @@
 (* shapes and keyword-like names, and every argument list of at most MaxArgs  *)
 (* menu values; for a part of the signatures also every CONVFMT setting       *)
 (* (calls with one argument) and every shadowed entry of the Funcs table      *)
-(* (calls without arguments).                                                 *)
+(* (calls without arguments).  Also the signatures with an extreme result     *)
+(* (ExtTableRight) and the shapes built from parts (ShapeRule,                     *)
+(* RejectedNeverCalled).                                                      *)
 EXTENDS NativeMachine
 
 CONSTANTS MaxArgs
@@ -15,6 +17,7 @@ ArgLists(n) == IF n = 0 THEN {<<>>} ELSE ArgLists(n - 1) \cup {Append(a, v) : a 
 ParamLists == {<<>>} \cup {<<k>> : k \in Kinds}
 Sigs == UNION {UNION {{MkSig(ps, vr, rm) : rm \in ResModes(ps, vr)} : vr \in IF ps = <<>> THEN {FALSE} ELSE {FALSE, TRUE}} : ps \in ParamLists}
         \cup {InvalidSig(s) : s \in InvalidShapes}
+        \cup ExtSigs(<<>>) \cup ExtSigs(<<"int">>) \cup GenSigs
 
 \* the shadowed name varies for calls without arguments, the CONVFMT setting for calls with one argument, both
 \* over the signatures whose result is none, an echo, or a constant of kind int or string
@@ -58,6 +61,33 @@ TotalTables ==
 RoundTrip ==
   \A k \in IntKinds, v \in {"three", "negthree", "n300", "zero", "sn12", "sn0"} :
      InRange(k, TruncHalves(NumHalves(v))) => FromGo(k, ToGo(k, v).val) = [t |-> "num", h |-> NumHalves(v)]
+\* the set-up verdict of a shape built from parts: accepted exactly when every parameter and the first result are of
+\* a documented kind and a second result is of the type error; in particular a concrete type that implements error,
+\* an undocumented parameter kind anywhere, a variadic tail of one, or a third result are rejected -- and a rejected
+\* function is never called
+ShapeRule ==
+  \A sg \in GenSigs :
+     /\ ValidSig(sg) <=> (/\ \A j \in 1..Len(sg.params) : sg.params[j] \notin BadKinds
+                          /\ sg.nres <= 2 /\ (sg.nres >= 1 => sg.rk \notin BadKinds) /\ (sg.nres = 2 => sg.r2 = "error"))
+     /\ (sg.nres = 2 /\ sg.r2 \in ImplementsError \ {"error"}) => ~ValidSig(sg)
+     /\ WellFormedSig(sg) /\ WellFormedSig(Fixed(sg)) /\ ValidSig(Fixed(sg))
+     /\ Len(Fixed(sg).params) = Len(sg.params)     \* the corrected function fits the calls the program was parsed with
+RejectedNeverCalled == (sig.shape = "gen" /\ ~GenValid(sig)) => phase \in {"start", "parsed", "parse-error", "setup-error"}
+\* extreme results: the predicted number has the sign and the digits of the mathematical value; exactness as a
+\* float64 follows from the number of significant bits (spot values written out)
+ExtTableRight ==
+  /\ \A k \in Kinds : \A x \in ExtOf(k) : LET v == ExtNum(k, x) IN (v.int => Len(v.digits) = v.e10 + 1) /\ (~v.int => v.digits = "")
+  /\ ExtNum("int64", "min").digits = "9223372036854775808" /\ ExtNum("int64", "min").neg /\ ExtNum("int64", "min").exact
+  /\ ExtNum("int", "max").digits = "9223372036854775807" /\ ~ExtNum("int", "max").exact
+  /\ ExtNum("uint64", "max").digits = "18446744073709551615" /\ ~ExtNum("uint64", "max").neg /\ ~ExtNum("uint64", "max").exact
+  /\ ExtNum("uint", "p63").digits = "9223372036854775808" /\ ~ExtNum("uint", "p63").neg /\ ExtNum("uint", "p63").exact
+  /\ ExtNum("uint32", "max").digits = "4294967295" /\ ExtNum("uint32", "max").exact
+  /\ ExtNum("int8", "min").digits = "128" /\ ExtNum("int16", "max").digits = "32767"
+  /\ ExtNum("float32", "fmax").digits = "340282346638528859811704183484516925440"
+  /\ ExtNum("float64", "fmax").e10 = 308 /\ ExtNum("float64", "negfmax").neg /\ ExtNum("float64", "fden").e10 = 0 - 324
+  /\ \A k \in Unsigned : \A x \in ExtOf(k) : ~ExtNum(k, x).neg          \* an unsigned result is never negative
+ASSUME ShapeRule
+ASSUME ExtTableRight
 ASSUME TotalTables
 ASSUME RoundTrip
 \* indexes agree between resolver and interpreter -- and would not if the resolver numbered only the unshadowed names
